@@ -280,3 +280,146 @@ def arg_other_pairs(r):
 
 def arg_urgency_comment(r):
     return r.choice(URG_COMMENTS)
+
+
+# --------------------------------------------------------------------------
+# multi-block texts with ONE (sometimes two) irregular-but-accepted construct in a NON-last block
+#
+# A "block" here is a list of lines: heading .. the blank line(s) after the trailer.  The irregularity is applied
+# to one block of an otherwise regular text, so that whatever the parser does with it (accept with a warning,
+# accept silently, fold it into the changes) the neighbours are regular and DIFFERENT from it.
+
+TRAILER_FAMILY = [k for k in JUNK_CLASSES if k.startswith('trailer') or k == 'bare-trailer']
+HEADING_FAMILY = [k for k in JUNK_CLASSES if k.startswith('heading') or k.startswith('old3')]
+BETWEEN_FAMILY = ['hash-comment', 'hash-near-miss', 'c-comment', 'c-comment-near-miss', 'cvs-keyword', 'cvs-near-miss',
+                  'generic-text', 'non-ascii', 'tab-line', 'one-space-line', 'emacs-near-miss', 'vim-near-miss',
+                  'blank-ish', 'change-ok', 'trailer-ok', 'bare-trailer', 'trailer-one-space']
+SLURP_FAMILY = [k for k in JUNK_CLASSES if k.startswith('old') or k in ('emacs-mode', 'vim-mode')]
+MULTI_FAMILIES = ['own-trailer-one-space', 'own-trailer-one-space', 'own-trailer-one-space', 'trailer-junk', 'trailer-junk',
+                  'heading-junk', 'heading-junk', 'own-heading-variant', 'own-heading-variant', 'between', 'between',
+                  'in-changes', 'layout', 'slurp']
+
+
+def trailer_index(b):
+    for i in range(len(b) - 1, -1, -1):
+        if b[i].startswith(' -- '):
+            return i
+    return None
+
+
+def one_space_trailer(line):
+    """' -- A <m>  date' -> ' -- A <m> date' (None when the line has no '>  ')."""
+    i = line.rfind('>  ')
+    if i < 0:
+        return None
+    return line[:i + 1] + ' ' + line[i + 3:]
+
+
+def heading_variant(r, h):
+    """An irregular spelling of the regular heading `h` (same package/version/distributions)."""
+    head, sep, pairs = h.partition('; ')
+    k = r.randrange(9)
+    if k == 0:
+        return h + ', urgency=high'                       # repeated key (warning, last one wins)
+    if k == 1:
+        return head + ';'                                  # no pairs at all (warning, urgency stays "unknown")
+    if k == 2:
+        return head + '; ' + pairs.replace('urgency=', 'Urgency=', 1)   # accepted silently, normalised on output
+    if k == 3:
+        return head + ';   ' + pairs.replace(', ', '  ,   ').replace('=', '= ', 1)
+    if k == 4:
+        return head.replace(') ', ')\t', 1) + '; ' + pairs  # tab between version and distributions
+    if k == 5:
+        return head + '; ' + pairs + ', novalue'           # invalid pair (warning, skipped)
+    if k == 6:
+        return head + '; ' + pairs + ','                   # trailing comma -> empty pair
+    if k == 7:
+        return head + '; ' + pairs.replace('urgency=', 'urgency=!', 1)  # bad urgency value
+    return head + '; closes=1, ' + pairs                   # urgency not first
+
+
+def irregularise(r, b, family):
+    """Returns (lines of the block with one irregular construct, label)."""
+    b = list(b)
+    ti = trailer_index(b)
+    if family == 'own-trailer-one-space' and ti is not None:
+        t = one_space_trailer(b[ti])
+        if t is not None:
+            if r.random() < 0.15:
+                t += r.choice([' ', '  '])
+            b[ti] = t
+            return b, 'own-trailer-one-space'
+    if family in ('own-trailer-one-space', 'trailer-junk') and ti is not None:
+        cls = r.choice(TRAILER_FAMILY)
+        b[ti] = r.choice(JUNK[cls])
+        return b, 'trailer-junk:' + cls
+    if family == 'heading-junk':
+        cls = r.choice(HEADING_FAMILY)
+        b[0] = r.choice(JUNK[cls])
+        return b, 'heading-junk:' + cls
+    if family == 'own-heading-variant' and '; ' in b[0]:
+        b[0] = heading_variant(r, b[0])
+        return b, 'own-heading-variant'
+    if family == 'between':
+        at = (ti + 1) if ti is not None else len(b)
+        for _ in range(r.choice([1, 1, 2])):
+            cls = r.choice(BETWEEN_FAMILY)
+            b.insert(r.randint(at, len(b)), r.choice(JUNK[cls]))
+        return b, 'between'
+    if family == 'slurp':
+        at = (ti + 1) if ti is not None else len(b)
+        cls = r.choice(SLURP_FAMILY)
+        b.insert(r.randint(at, len(b)), r.choice(JUNK[cls]))
+        return b, 'slurp'
+    if family == 'layout' and ti is not None:
+        k = r.randrange(6)
+        if k == 0:
+            while len(b) > ti + 1:                          # the next heading follows the trailer directly
+                b.pop()
+        elif k == 1 and len(b) > 1 and b[1].strip() == '':
+            b.pop(1)                                        # no blank line after the heading
+        elif k == 2 and b[ti - 1].strip() == '':
+            b.pop(ti - 1)                                   # no blank line before the trailer
+        elif k == 3:
+            b[ti + 1:] = [r.choice(['', ' ', '  ', '\t']) for _ in range(r.randint(2, 3))]
+        elif k == 4:
+            b.insert(1, r.choice(['  ', '\t', ' ']))        # whitespace-only line after the heading
+        else:
+            b.insert(ti, r.choice(['  ', '', '   ']))       # additional blank-ish line before the trailer
+        return b, 'layout'
+    # in-changes (also the fallback when the block has no trailer)
+    hi = ti if ti is not None else len(b)
+    cls = r.choice(JUNK_CLASSES)
+    b.insert(r.randint(1, max(1, hi)), r.choice(JUNK[cls]))
+    return b, 'in-changes'
+
+
+def regular_blocks(r, n):
+    """n regular blocks with pairwise different headings/authors where the pools allow it; every other block is
+    plain (no urgency comment, no extra pairs) so that state leaking from a neighbour would show."""
+    out = []
+    for i in range(n):
+        out.append(block(r, rich=(r.random() < 0.5) if i % 2 else False) + [''])
+    return out
+
+
+def multi_irregular(r, blocks=None):
+    """-> (lines, info).  `blocks`: optional list of blocks (lists of lines) to use instead of generated ones."""
+    if blocks is None:
+        blocks = regular_blocks(r, r.choice([2, 2, 3, 3, 4]))
+    blocks = [list(b) for b in blocks]
+    n = len(blocks)
+    k = r.randrange(n - 1) if n > 1 else 0
+    fam = r.choice(MULTI_FAMILIES)
+    blocks[k], label = irregularise(r, blocks[k], fam)
+    info = {'n': n, 'k': k, 'family': label.split(':')[0], 'label': label}
+    if n > 1 and r.random() < 0.2:                          # a second irregular block, anywhere but k
+        k2 = r.choice([i for i in range(n) if i != k])
+        blocks[k2], label2 = irregularise(r, blocks[k2], r.choice(MULTI_FAMILIES))
+        info['second'] = {'k': k2, 'label': label2}
+    lines = []
+    if r.random() < 0.1:
+        lines.append(r.choice(['', '# leading comment', '  ']))
+    for b in blocks:
+        lines += b
+    return lines, info
